@@ -23,7 +23,7 @@ from pydantic import PrivateAttr, model_validator
 from scipy.interpolate import interpn
 
 from AEIC.performance.types import AircraftState, Performance, SimpleFlightRules
-from AEIC.units import METERS_TO_FL
+from AEIC.units import FL_TO_METERS
 from AEIC.utils.models import CIBaseModel
 
 from .base import BasePerformanceModel
@@ -273,7 +273,7 @@ class PerformanceTable:
         The interpolation is done in the subset of the performance table
         corresponding to the given rate of climb/descent filter."""
 
-        fl = state.altitude * METERS_TO_FL
+        fl = state.altitude / FL_TO_METERS
         mass = state.aircraft_mass
         if mass == 'min':
             mass = min(self.mass)
